@@ -4,6 +4,7 @@ import (
 	"bytes"
 	"encoding/binary"
 	"fmt"
+	"github.com/evanoberholster/imagemeta"
 	"strings"
 	"time"
 
@@ -97,6 +98,9 @@ func runExifProps(c *Ctx, which string) error {
 		"C06": "the same Exif payload embedded in TIFF, JPEG APP1, PNG eXIf, HEIF-branded files and (split into its three directories) the CMT1/CMT2/CMT4 boxes of a Canon CR3 file with random surrounding content: fields of Decode / DecodeJPEG / DecodePng / DecodeHeif / DecodeCR3 must equal those of the bare TIFF decode (only the image type differs).",
 		"C07": "paired little- and big-endian encodings of the same record and layout, in every container: identical results.",
 	}[which]
+	if which == "C03" {
+		isoOutOfLine(c)
+	}
 	type gcase struct {
 		r      lrec
 		lo     layoutOpt
@@ -401,4 +405,69 @@ func diffClass(exp, got, tag string) string {
 		p = tag + ":" + p
 	}
 	return p
+}
+
+// isoOutOfLine: ISOSpeedRatings is SHORT with count "any" (Exif 2.3); with three or more values the value lies outside
+// the directory entry. The first value is the ISO speed. Crafted files, both byte orders, counts 1..4, decoded with
+// imagemeta.DecodeTiff; expectation written down here.
+func isoOutOfLine(c *Ctx) {
+	type order interface {
+		binary.ByteOrder
+		binary.AppendByteOrder
+	}
+	for _, bo := range []order{binary.LittleEndian, binary.BigEndian} {
+		for cnt := 1; cnt <= 4; cnt++ {
+			b := []byte("II*\x00")
+			if bo.String() == "BigEndian" {
+				b = []byte("MM\x00*")
+			}
+			b = bo.AppendUint32(b, 8)
+			b = bo.AppendUint16(b, 1) // IFD0: the Exif pointer
+			b = bo.AppendUint16(b, 0x8769)
+			b = bo.AppendUint16(b, 4)
+			b = bo.AppendUint32(b, 1)
+			b = bo.AppendUint32(b, 26)
+			b = bo.AppendUint32(b, 0)
+			b = bo.AppendUint16(b, 1) // Exif directory at 26: ISOSpeedRatings
+			b = bo.AppendUint16(b, 0x8827)
+			b = bo.AppendUint16(b, 3)
+			b = bo.AppendUint32(b, uint32(cnt))
+			vals := []uint16{200, 400, 800, 1600}[:cnt]
+			if cnt <= 2 {
+				v := make([]byte, 0, 4)
+				for _, x := range vals {
+					v = bo.AppendUint16(v, x)
+				}
+				for len(v) < 4 {
+					v = append(v, 0)
+				}
+				b = append(b, v...)
+				b = bo.AppendUint32(b, 0)
+			} else {
+				b = bo.AppendUint32(b, 44)
+				b = bo.AppendUint32(b, 0)
+				for _, x := range vals {
+					b = bo.AppendUint16(b, x)
+				}
+			}
+			b = append(b, make([]byte, 64)...)
+			var iso uint32
+			var err error
+			p, fr, _ := safely(func() {
+				e, er := imagemeta.DecodeTiff(bytes.NewReader(b))
+				iso, err = uint32(e.ISOSpeed), er
+			})
+			c.Count(fmt.Sprintf("isoOutOfLine %s %d", bo.String(), cnt), true)
+			c.Stat("crafted.iso-short-count")
+			class := "iso-short-embedded"
+			if cnt > 2 {
+				class = "iso-short-out-of-line"
+			}
+			if p {
+				c.Violate(Case{Entry: "imagemeta.DecodeTiff", Input: hexs(b), Expected: "returns", Actual: "panic", Kind: "panic", Frame: fr, Class: class})
+			} else if got := fmt.Sprintf("err=%v iso=%d", err, iso); got != "err=<nil> iso=200" {
+				c.Violate(Case{Entry: "imagemeta.DecodeTiff", Input: hexs(b), Expected: "err=<nil> iso=200", Actual: got, Kind: "wrong-value", Class: class, Note: fmt.Sprintf("%s, SHORT x %d", bo.String(), cnt)})
+			}
+		}
+	}
 }
